@@ -10,6 +10,7 @@ mod c02;
 mod c03;
 mod c04;
 mod c05;
+mod c11;
 mod c12;
 mod c13;
 mod cat;
@@ -81,6 +82,7 @@ fn registry(property: &str) -> Option<(RunFn, ReplayFn)> {
         "C03" => Some((c03::run, c03::replay)),
         "C04" => Some((c04::run, c04::replay)),
         "C05" => Some((c05::run_c05, c05::replay_c05)),
+        "C11" => Some((c11::run, c11::replay)),
         "C12" => Some((c12::run, c12::replay)),
         "C13" => Some((c13::run, c13::replay)),
         "C19" => Some((c05::run_c19, c05::replay_c19)),
